@@ -1,8 +1,14 @@
 (* C05 - Compression is used only as negotiated and configured.
    Statements only: each theorem is closed by [exact] of a lemma proved in Proofs/Negotiate.v.
    Header values are arbitrary byte lists; configurations are arbitrary slot contents (which
-   include the sixteen values the builder methods can produce, enumerated at the end);
-   handler metadata, flags and payloads are arbitrary. *)
+   include the sixteen values the builder methods can produce, enumerated at the end); the
+   server theorems hold for each of the four entry points of server::Grpc ([shape]), the client
+   theorems for each of the four call shapes; handlers, frames, flags, payloads and the
+   compressor are arbitrary.
+   Stated premises (tonic does not reserve these metadata names, see checks/C05.json):
+   c05_server_announce_iff - the handler's own metadata has no grpc-encoding entry;
+   c05_client_announce_iff - the caller's own metadata has no grpc-encoding entry; the `[]`
+   branch of c05_client_advertises_exactly shows the caller's grpc-accept-encoding entries. *)
 From Verif Require Import Lib.Bytes Lib.HeaderMap Model.Frame.
 From Verif Require Import Gen.StatusTables Gen.CompressionTables Model.Status Model.Negotiate.
 From Verif Require Import Proofs.Status Proofs.Negotiate.
@@ -51,52 +57,74 @@ Theorem c05_trim_removes_only_outer_white_space : forall s,
               (forall x r, trim s = r ++ [x] -> is_ws x = false).
 Proof. exact trim_spec. Qed.
 
-(* ---- what the server sends ---- *)
-(* a response is compressed only with an encoding enabled for sending and offered by the
-   request; it is then flagged and announced *)
-Theorem c05_server_compresses_only_as_negotiated : forall sv rq h hdrs flag used e,
-  server_unary sv rq h = RespOk hdrs flag used -> used = Some e ->
+(* ---- what the server sends: every entry point ---- *)
+(* a response frame is compressed only with an encoding enabled for sending and offered by the
+   request; it is then flagged, announced, and its payload is that compressor's output *)
+Theorem c05_server_compresses_only_as_negotiated :
+  forall (cmp : encoding -> list N -> list N) (s : shape) sv rq (h : handler) hdrs frames f e,
+  server_call cmp s sv rq h = RespOk hdrs frames -> In f frames -> wf_used f = Some e ->
   is_enabled (sv_send sv) e = true /\
   (exists v, hm_get (rq_headers rq) hdr_grpc_accept_encoding = Some v /\
              In (as_str e) (map trim (split_on COMMA v))) /\
-  flag = 1 /\ hm_get_all hdrs hdr_grpc_encoding = [as_str e].
+  wf_flag f = 1 /\ hm_get_all hdrs hdr_grpc_encoding = [as_str e] /\
+  exists msg, wf_bytes f = frame 1 (cmp e msg).
 Proof. exact server_compresses_only_as_negotiated. Qed.
 
-(* grpc-encoding is announced exactly when an encoding was chosen and names it; otherwise the
-   message goes out plain (flag 0).  The per-response opt-out keeps the announcement but sends
-   the message plain. (Handler metadata is arbitrary except that it does not itself carry a
-   grpc-encoding entry.) *)
-Theorem c05_server_announce_iff : forall sv rq md ov hdrs flag used,
-  server_unary sv rq (HOk md ov) = RespOk hdrs flag used ->
-  hm_get_all md hdr_grpc_encoding = [] ->
+(* "otherwise sends identity": every other frame is the plain message with flag 0 *)
+Theorem c05_server_plain_frames :
+  forall (cmp : encoding -> list N -> list N) (s : shape) sv rq (h : handler) hdrs frames f,
+  server_call cmp s sv rq h = RespOk hdrs frames -> In f frames -> wf_used f = None ->
+  wf_flag f = 0 /\ exists msg, wf_bytes f = frame 0 msg.
+Proof. exact server_plain_frames. Qed.
+
+(* completeness at the level of a call: if the header offers an encoding that is enabled for
+   sending, the answer of every entry point announces the first such one *)
+Theorem c05_server_call_choice_complete :
+  forall (cmp : encoding -> list N -> list N) (s : shape) sv rq (h : handler) hdrs frames v e,
+  hm_get (rq_headers rq) hdr_grpc_accept_encoding = Some v -> forallb is_visible_ascii v = true ->
+  In (as_str e) (map trim (split_on COMMA v)) -> is_enabled (sv_send sv) e = true ->
+  server_call cmp s sv rq h = RespOk hdrs frames ->
+  exists e' pre post,
+    from_accept_encoding_header (rq_headers rq) (sv_send sv) = Some e' /\
+    is_enabled (sv_send sv) e' = true /\
+    map trim (split_on COMMA v) = pre ++ as_str e' :: post /\
+    (forall e'', In (as_str e'') pre -> is_enabled (sv_send sv) e'' = false) /\
+    hm_get_all hdrs hdr_grpc_encoding = [as_str e'].
+Proof. exact server_call_choice_complete. Qed.
+
+(* grpc-encoding is announced exactly when an encoding was chosen and names it; otherwise every
+   message goes out plain (flag 0).  The per-response opt-out (honoured by unary and
+   client_streaming only) keeps the announcement but sends the message plain.
+   Premise: the handler's own metadata never carries a grpc-encoding entry. *)
+Theorem c05_server_announce_iff :
+  forall (cmp : encoding -> list N -> list N) (s : shape) sv rq (h : handler) hdrs frames,
+  server_call cmp s sv rq h = RespOk hdrs frames ->
+  (forall d md ov msgs, h d = HOk md ov msgs -> hm_get_all md hdr_grpc_encoding = []) ->
   let chosen := from_accept_encoding_header (rq_headers rq) (sv_send sv) in
   (forall e, hm_get_all hdrs hdr_grpc_encoding = [as_str e] <-> chosen = Some e) /\
   (hm_get_all hdrs hdr_grpc_encoding = [] <-> chosen = None) /\
-  (ov = Inherit -> used = chosen /\ (flag = 1 <-> chosen <> None) /\ (flag = 0 <-> chosen = None)) /\
-  (ov = Disable -> used = None /\ flag = 0).
+  exists d md ov msgs, h d = HOk md ov msgs /\
+    (override_for s ov = Inherit ->
+       Forall (fun f => wf_used f = chosen /\ wf_flag f = flag_of chosen) frames) /\
+    (override_for s ov = Disable ->
+       response_is_unary s = true /\ ov = Disable /\
+       Forall (fun f => wf_used f = None /\ wf_flag f = 0) frames).
 Proof. exact server_announce_iff. Qed.
 
-(* with arbitrary handler metadata: tonic's own contribution to grpc-encoding *)
-Theorem c05_server_response_exact : forall sv rq h hdrs flag used,
-  server_unary sv rq h = RespOk hdrs flag used ->
-  exists md ov, h = HOk md ov /\
-    used = effective_encoding (from_accept_encoding_header (rq_headers rq) (sv_send sv)) ov /\
-    flag = flag_of used /\
+(* with arbitrary handler metadata: tonic's own contribution to grpc-encoding, and every frame *)
+Theorem c05_server_response_exact :
+  forall (cmp : encoding -> list N -> list N) (s : shape) sv rq (h : handler) hdrs frames,
+  server_call cmp s sv rq h = RespOk hdrs frames ->
+  exists d md ov msgs, h d = HOk md ov msgs /\
+    frames = map (encode_item cmp (effective_encoding
+                    (from_accept_encoding_header (rq_headers rq) (sv_send sv)) (override_for s ov)))
+                 (response_messages s msgs) /\
     hm_get_all hdrs hdr_grpc_encoding =
       match from_accept_encoding_header (rq_headers rq) (sv_send sv) with
       | Some e => [as_str e]
       | None => hm_get_all md hdr_grpc_encoding
       end.
 Proof. exact server_response_exact. Qed.
-
-(* the same on the wire, for any compressor *)
-Theorem c05_server_wire : forall (compress : encoding -> list N -> list N) sv rq h hdrs flag used msg,
-  server_unary sv rq h = RespOk hdrs flag used ->
-  (wire_frame compress used msg = frame 0 msg /\ used = None) \/
-  (exists e, wire_frame compress used msg = frame 1 (compress e msg) /\ used = Some e /\
-             is_enabled (sv_send sv) e = true /\ offers (rq_headers rq) e /\
-             hm_get_all hdrs hdr_grpc_encoding = [as_str e]).
-Proof. exact server_wire. Qed.
 
 (* ---- receiving: grpc-encoding of a request or a response ---- *)
 Theorem c05_recv_encoding_exact : forall m c,
@@ -125,10 +153,12 @@ Theorem c05_recv_refuses_otherwise : forall m c v,
     map trim (split_on COMMA (refusal_value c)) = map as_str (en_list c) ++ [encoding_header_identity].
 Proof. exact recv_refuses_otherwise. Qed.
 
-Theorem c05_server_refuses_unaccepted : forall sv rq h v,
+(* every entry point, every handler *)
+Theorem c05_server_refuses_unaccepted :
+  forall (cmp : encoding -> list N -> list N) (s : shape) sv rq (h : handler) v,
   hm_get (rq_headers rq) hdr_grpc_encoding = Some v ->
   (forall e, v = as_str e -> is_enabled (sv_accept sv) e = false) -> v <> encoding_header_identity ->
-  exists st m, server_unary sv rq h = RespStatus st m /\ st_code st = Code_Unimplemented /\
+  exists st m, server_call cmp s sv rq h = RespStatus st m /\ st_code st = Code_Unimplemented /\
     hm_get_all m hdr_grpc_status = [[49; 50]] /\
     hm_get_all m hdr_grpc_accept_encoding = [refusal_value (sv_accept sv)] /\
     map trim (split_on COMMA (refusal_value (sv_accept sv))) =
@@ -136,10 +166,24 @@ Theorem c05_server_refuses_unaccepted : forall sv rq h v,
     hm_get_all m hdr_grpc_encoding = [].
 Proof. exact server_refuses_unaccepted. Qed.
 
-Theorem c05_client_refuses_unaccepted : forall c hdrs v,
+(* and only then: an absent, identity or enabled grpc-encoding with unflagged frames reaches
+   the handler of every entry point *)
+Theorem c05_server_accepts_enabled :
+  forall (cmp : encoding -> list N -> list N) (s : shape) sv rq (h : handler),
+  (hm_get (rq_headers rq) hdr_grpc_encoding = None \/
+   hm_get (rq_headers rq) hdr_grpc_encoding = Some encoding_header_identity \/
+   exists e, hm_get (rq_headers rq) hdr_grpc_encoding = Some (as_str e) /\ is_enabled (sv_accept sv) e = true) ->
+  Forall (fun f => rf_flag f = 0) (rq_frames rq) -> rq_frames rq <> [] ->
+  server_call cmp s sv rq h =
+  map_response cmp s (h (List.length (rq_frames rq), inl tt))
+               (from_accept_encoding_header (rq_headers rq) (sv_send sv)).
+Proof. exact server_accepts_enabled. Qed.
+
+(* every call shape of the client; nothing of a refused response is delivered *)
+Theorem c05_client_refuses_unaccepted : forall (s : shape) c hdrs fs v,
   hm_get hdrs hdr_grpc_encoding = Some v ->
   (forall e, v = as_str e -> is_enabled (cl_accept c) e = false) -> v <> encoding_header_identity ->
-  exists st, create_response c hdrs = ClErr st /\ st_code st = Code_Unimplemented /\
+  exists st, client_receive s c hdrs fs = CrDone O (inr st) /\ st_code st = Code_Unimplemented /\
     hm_get_all (st_md st) hdr_grpc_accept_encoding = [refusal_value (cl_accept c)].
 Proof. exact client_refuses_unaccepted. Qed.
 
@@ -165,32 +209,52 @@ Theorem c05_decode_flag_exact : forall enc flag,
   end.
 Proof. exact decode_flag_exact. Qed.
 
-Theorem c05_server_flag_without_encoding : forall sv rq h,
+(* unary / server_streaming answer INTERNAL themselves; client_streaming / streaming hand the
+   INTERNAL status to the handler as the item of its request stream *)
+Theorem c05_server_flag_without_encoding :
+  forall (cmp : encoding -> list N -> list N) (s : shape) sv rq (h : handler) f r,
   (hm_get (rq_headers rq) hdr_grpc_encoding = None \/
    hm_get (rq_headers rq) hdr_grpc_encoding = Some encoding_header_identity) ->
-  rq_flag rq = 1 ->
-  exists st m, server_unary sv rq h = RespStatus st m /\ st_code st = Code_Internal /\
-    hm_get_all m hdr_grpc_status = [[49; 51]] /\ hm_get_all m hdr_grpc_encoding = [].
+  rq_frames rq = f :: r -> rf_flag f = 1 ->
+  exists st, st_code st = Code_Internal /\
+    if request_is_unary s then
+      exists m, server_call cmp s sv rq h = RespStatus st m /\
+        hm_get_all m hdr_grpc_status = [[49; 51]] /\ hm_get_all m hdr_grpc_encoding = []
+    else server_call cmp s sv rq h =
+         map_response cmp s (h (O, inr st)) (from_accept_encoding_header (rq_headers rq) (sv_send sv)).
 Proof. exact server_flag_without_encoding. Qed.
 
-Theorem c05_client_flag_without_encoding : forall c hdrs infl,
-  create_response c hdrs = ClStream None ->
-  exists st, client_receive c hdrs 1 infl = CrErr st /\ st_code st = Code_Internal.
+Theorem c05_client_flag_without_encoding : forall (s : shape) c hdrs f r,
+  create_response c hdrs = ClStream None -> rf_flag f = 1 ->
+  exists st, client_receive s c hdrs (f :: r) = CrDone O (inr st) /\ st_code st = Code_Internal.
 Proof. exact client_flag_without_encoding. Qed.
 
-(* ---- the client's requests ---- *)
-Theorem c05_client_sends_exactly : forall c md h,
-  prepare_request c md = Done h ->
+(* ---- the client's requests: every call shape ---- *)
+Theorem c05_client_sends_exactly :
+  forall (cmp : encoding -> list N -> list N) (s : shape) c md msgs h frames,
+  client_request cmp s c md msgs = Done (h, frames) ->
+  List.length frames = List.length (request_messages s msgs) /\
   match cl_send c with
   | Some e => hm_get_all h hdr_grpc_encoding = [as_str e] /\
-              client_request_encoding c = Some e /\ flag_of (client_request_encoding c) = 1
+              Forall (fun f => wf_used f = Some e /\ wf_flag f = 1 /\
+                               exists m, wf_bytes f = frame 1 (cmp e m)) frames
   | None => hm_get_all h hdr_grpc_encoding = hm_get_all md hdr_grpc_encoding /\
-            client_request_encoding c = None /\ flag_of (client_request_encoding c) = 0
+            Forall (fun f => wf_used f = None /\ wf_flag f = 0 /\
+                             exists m, wf_bytes f = frame 0 m) frames
   end.
 Proof. exact client_sends_exactly. Qed.
 
-Theorem c05_client_advertises_exactly : forall c md h,
-  prepare_request c md = Done h ->
+(* premise: the caller's own metadata has no grpc-encoding entry *)
+Theorem c05_client_announce_iff :
+  forall (cmp : encoding -> list N -> list N) (s : shape) c md msgs h frames,
+  client_request cmp s c md msgs = Done (h, frames) -> hm_get_all md hdr_grpc_encoding = [] ->
+  (forall e, hm_get_all h hdr_grpc_encoding = [as_str e] <-> cl_send c = Some e) /\
+  (hm_get_all h hdr_grpc_encoding = [] <-> cl_send c = None).
+Proof. exact client_announce_iff. Qed.
+
+Theorem c05_client_advertises_exactly :
+  forall (cmp : encoding -> list N -> list N) (s : shape) c md msgs h frames,
+  client_request cmp s c md msgs = Done (h, frames) ->
   match en_list (cl_accept c) with
   | [] => hm_get_all h hdr_grpc_accept_encoding = hm_get_all md hdr_grpc_accept_encoding
   | l => hm_get_all h hdr_grpc_accept_encoding = [refusal_value (cl_accept c)] /\
@@ -205,16 +269,18 @@ Proof. exact client_of_config. Qed.
 
 (* tonic client against tonic server: the first encoding, in the client's order of acceptance,
    that the server may send *)
-Theorem c05_negotiation_end_to_end : forall cl md h send,
-  prepare_request cl md = Done h -> en_list (cl_accept cl) <> [] ->
+Theorem c05_negotiation_end_to_end :
+  forall (cmp : encoding -> list N -> list N) (s : shape) cl md msgs h frames send,
+  client_request cmp s cl md msgs = Done (h, frames) -> en_list (cl_accept cl) <> [] ->
   from_accept_encoding_header h send = find (is_enabled send) (en_list (cl_accept cl)).
 Proof. exact negotiation_end_to_end. Qed.
 
 (* ---- no panic site is reachable ---- *)
-Theorem c05_never_panics : forall sv rq h c md hdrs flag infl,
-  (forall st, h = HErr st -> well_formed st) ->
-  server_unary sv rq h <> RespPanic /\ prepare_request c md <> Panic /\
-  client_receive c hdrs flag infl <> CrPanic /\ accept_value (sv_accept sv) <> AvPanic.
+Theorem c05_never_panics :
+  forall (cmp : encoding -> list N -> list N) (s : shape) sv rq (h : handler) c md hdrs fs,
+  (forall d st, h d = HErr st -> well_formed st) ->
+  server_call cmp s sv rq h <> RespPanic /\ prepare_request c md <> Panic /\
+  client_receive s c hdrs fs <> CrPanic /\ accept_value (sv_accept sv) <> AvPanic.
 Proof. exact never_panics. Qed.
 
 (* ---- configurations: finite, enumerated ---- *)
@@ -272,27 +338,57 @@ Example c05_refusal_premises_hold :
   (forall e, [98; 114] = as_str e -> is_enabled c e = false) /\ [98; 114] <> encoding_header_identity /\
   refusal_value c = bytes_of_string "zstd,gzip,identity" /\
   refusal_value (config_of []) = bytes_of_string "identity" /\
-  obs_server (mkServer c c) (mkRequest m 0 []) (HOk [] Inherit) =
-  obs_response (RespStatus (unimplemented_with_accept (refusal_value c))
-                           [(hdr_content_type, grpc_content_type);
-                            (hdr_grpc_accept_encoding, refusal_value c);
-                            (hdr_grpc_status, [49; 50])]).
+  (forall s, obs_server [] s (mkServer c c) (mkRequest m [mkFrame 0 []]) (HOk [] Inherit [[1]]) =
+     obs_response (RespStatus (unimplemented_with_accept (refusal_value c))
+                              [(hdr_content_type, grpc_content_type);
+                               (hdr_grpc_accept_encoding, refusal_value c);
+                               (hdr_grpc_status, [49; 50])])).
 Proof.
   split; [intros e; destruct e; intros H; vm_compute in H; discriminate|].
   split; [intros H; vm_compute in H; discriminate|]. repeat split; reflexivity.
 Qed.
 
-(* an answered, compressed call and the opt-out *)
+(* an answered, compressed call on every entry point, and the opt-out where it is honoured *)
 Example c05_announce_premises_hold :
-  let rq := mkRequest [(hdr_grpc_accept_encoding, as_str Deflate)] 0 [] in
+  let rq := mkRequest [(hdr_grpc_accept_encoding, as_str Deflate)] [mkFrame 0 []] in
   let sv := server_of [] [Gzip; Deflate] in
-  (exists hdrs, server_unary sv rq (HOk [] Inherit) = RespOk hdrs 1 (Some Deflate)) /\
-  (exists hdrs, server_unary sv rq (HOk [] Disable) = RespOk hdrs 0 None /\
-                hm_get_all hdrs hdr_grpc_encoding = [as_str Deflate]).
-Proof. split; eexists; [|split]; reflexivity. Qed.
+  let cmp := fun (_ : encoding) (m : list N) => 7 :: m in
+  let used s ov := match server_call cmp s sv rq (propagate (HOk [] ov [[1]; [2]])) with
+                   | RespOk h fr => (hm_get_all h hdr_grpc_encoding, map wf_used fr, map wf_bytes fr)
+                   | _ => ([], [], [])
+                   end in
+  used Unary Inherit = ([as_str Deflate], [Some Deflate], [[1; 0; 0; 0; 2; 7; 1]]) /\
+  used Unary Disable = ([as_str Deflate], [None], [[0; 0; 0; 0; 1; 1]]) /\
+  used ClientStreaming Disable = ([as_str Deflate], [None], [[0; 0; 0; 0; 1; 1]]) /\
+  used ServerStreaming Disable =
+    ([as_str Deflate], [Some Deflate; Some Deflate], [[1; 0; 0; 0; 2; 7; 1]; [1; 0; 0; 0; 2; 7; 2]]) /\
+  used Streaming Inherit =
+    ([as_str Deflate], [Some Deflate; Some Deflate], [[1; 0; 0; 0; 2; 7; 1]; [1; 0; 0; 0; 2; 7; 2]]).
+Proof. repeat split; reflexivity. Qed.
+
+(* the client theorems on concrete values: a request of every shape, a refused response, a
+   flagged frame without encoding *)
+Example c05_client_premises_hold :
+  let c := client_of [Gzip; Zstd] [Deflate; Gzip] in
+  let cmp := fun (_ : encoding) (m : list N) => 7 :: m in
+  (forall s, exists h fr, client_request cmp s c [] [[1]; [2]] = Done (h, fr) /\
+     hm_get_all h hdr_grpc_encoding = [as_str Zstd] /\
+     hm_get_all h hdr_grpc_accept_encoding = [bytes_of_string "deflate,gzip,identity"] /\
+     Forall (fun f => wf_used f = Some Zstd) fr) /\
+  (forall s, exists st, client_receive s c [(hdr_grpc_encoding, as_str Zstd)] [mkFrame 0 []] = CrDone O (inr st) /\
+     st_code st = Code_Unimplemented) /\
+  (forall s, create_response c [] = ClStream None /\
+     exists st, client_receive s c [] [mkFrame 1 []] = CrDone O (inr st) /\ st_code st = Code_Internal) /\
+  (forall s, client_receive s c [(hdr_grpc_encoding, as_str Gzip)] [mkFrame 1 [Gzip]] = CrDone 1 (inl tt)).
+Proof.
+  split; [|split; [|split]]; intros s; destruct s;
+    repeat (try eexists; try split; try reflexivity; repeat constructor).
+Qed.
 
 Print Assumptions c05_server_choice_sound.
 Print Assumptions c05_server_choice_complete.
+Print Assumptions c05_server_call_choice_complete.
+Print Assumptions c05_server_compresses_only_as_negotiated.
 Print Assumptions c05_server_announce_iff.
 Print Assumptions c05_recv_encoding_exact.
 Print Assumptions c05_server_refuses_unaccepted.
